@@ -32,7 +32,7 @@ def qlist(xs):
 def run(ctx):
     ctx.rule = ("random tubes (r 10-25, t/r 0.1-0.2, nr 3-5, nt 4-8, nz 2-4, 1D/2D/3D), elastic NEML materials with constant, affine "
                 "or kinked expansion coefficient, 2-4 step histories of nodal temperature (radial/circumferential/axial variation, "
-                "uniform, outer-surface-only, slow drifts of a few mK per step), pressure and top displacement; variants: altered future, trial solves, refined "
+                "uniform, outer-surface-only, slow drifts of a few mK per step), pressure and top displacement; variants: altered future, trial solves, first state created without a time index, refined "
                 "steps, forced sub-increments, free expansion.  one case = one tube run; all non-trivial")
     ctx.trusted += ["scikit-fem assembly and interpolation, NEML SmallStrainElasticity (the finite-element solve is run, not modelled)",
                     "translator harness/translators/strainbook.py"]
@@ -76,6 +76,10 @@ def run(ctx):
         tr = copy.deepcopy(c)
         tr["trial"] = {str(j): [rng.uniform(-2e-3, 2e-3) * c["h"], c["dtop"][j] * 1.5 + 1e-4] for j in range(1, len(c["times"]))}
         jobs.append(("trial", b, add(tr, "trial")))
+        # a state created without a time index (direct callers) must give the same steps
+        ni = copy.deepcopy(c)
+        ni["init"] = "noindex"
+        jobs.append(("noindex", b, add(ni, "noindex")))
         if c["material"]["alpha_kind"] != "kink":
             jobs.append(("refined", b, add(refine(c, rng.choice([2, 3])), "refined")))
             fd = copy.deepcopy(c)
@@ -111,6 +115,8 @@ def run(ctx):
         if r.get("outcome") != "ok":
             bad(i, "the tube solve failed: %s %s" % (r.get("outcome"), r.get("msg", "")[:160]))
             continue
+        if c["kind_tag"] == "noindex":
+            continue        # its stored time-0 temperature is the blank state's; only compared step by step with the base run
         T = quad(i, "temperature")
         th = {s: quad(i, "thermal_strain" + s) for s in SUFF}
         e = {s: quad(i, "strain" + s) for s in SUFF}
@@ -176,6 +182,12 @@ def run(ctx):
                     break
             if results[a]["force"][:k + 1] != results[b]["force"][:k + 1]:
                 bad(b, "axial force of the first %d steps depends on later inputs" % k)
+        elif kind == "noindex":
+            for n in names:
+                if not np.array_equal(quad(a, n)[1:], quad(b, n)[1:]):
+                    bad(b, "%s differs by %g when the first state is created without a time index (init_state(tube, mat))"
+                        % (n, np.max(np.abs(quad(a, n)[1:] - quad(b, n)[1:]))))
+                    break
         elif kind == "trial":
             for n in names:
                 if not np.array_equal(quad(a, n), quad(b, n)):
